@@ -40,6 +40,8 @@ pub fn functionals(thorough: bool) -> Vec<Func> {
     push("PcSaft/propane", F::PcSaftFunctional(PcSaftFunctional::new(pcp(&["propane"], "pcsaft/gross2001.json"))), 260.0, 1, true);
     push("PcSaft/butane+pentane", F::PcSaftFunctional(PcSaftFunctional::new(pcp(&["butane", "pentane"], "pcsaft/gross2001.json"))), 300.0, 2, true);
     push("PcSaft/methanol", F::PcSaftFunctional(PcSaftFunctional::new(pcp(&["methanol"], "pcsaft/gross2002.json"))), 350.0, 1, true);
+    // two associating components: the iterative cross-association solver (implicit derivatives of the site fractions) instead of the closed form
+    push("PcSaft/methanol+ethanol", F::PcSaftFunctional(PcSaftFunctional::new(pcp(&["methanol", "ethanol"], "pcsaft/gross2002.json"))), 350.0, 2, true);
     if thorough {
         push("PcSaft/propane(KR)", F::PcSaftFunctional(PcSaftFunctional::new_full(pcp(&["propane"], "pcsaft/gross2001.json"), FMTVersion::KierlikRosinberg)), 260.0, 1, true);
         push("PcSaft/co2", F::PcSaftFunctional(PcSaftFunctional::new(pcp(&["carbon dioxide"], "pcsaft/gross2005_fit.json"))), 240.0, 1, true);
